@@ -153,6 +153,9 @@ def dict_to_cgi_params(params: dict[str, str]) -> str:
     lst = []
     for name in keys:
         val = params[name]
+        if val is None:
+            # e.g. leeway=none: an empty value is parsed as None again
+            val = ''
         lst.append(f'{name}={val}')
     return '?' + '&'.join(lst)
 
